@@ -92,6 +92,9 @@ DestrPhaseOpen(m) ==
      \/ (m.stack[i].k = "op" /\ m.stack[i].op \in {"glue", "gluew", "gluec"})
      \/ (m.stack[i].k = "cb" /\ m.stack[i].op = "action" /\ ~(i > 1 /\ m.stack[i - 1].k = "op" /\ m.stack[i - 1].op = "clean"))
 
+\* a payload callback on object o (trace / finalize / destructor body) is still running
+OwnCbOpen(m, o) == \E i \in DOMAIN m.stack : m.stack[i].k = "cb" /\ m.stack[i].o = o /\ m.stack[i].op \in {"trace", "finalize", "drop"}
+
 SetTopField(m, f, v) == [m EXCEPT !.stack[Len(m.stack)][f] = v]
 \* mark every open frame as having seen a fault / a finalize-or-drop callback
 MarkAll(m, f, v) == [m EXCEPT !.stack = [i \in DOMAIN @ |-> [@[i] EXCEPT ![f] = v]]]
@@ -471,7 +474,8 @@ OnCb(m, e) ==
         m5 == Flag(m4, known /\ m.cfg.fin /\ ob.vs = "live" /\ ob.armed = "yes" /\ ~ob.tainted /\ ~m.faulted, "C05", "object " \o ToString(o) \o " dropped without having been finalized")
         m5b == Flag(m5, known /\ m.cfg.fin /\ ob.vs = "live" /\ ob.armed = "yes" /\ ~ob.tainted /\ ~m.faulted /\ ~CollRunning(m), "C04",
                     "the last-owner drop of object " \o ToString(o) \o " did not finalize it although finalization was due")
-        m6 == IF known /\ ob.vs \in {"live", "moved", "pending"} THEN [m5b EXCEPT !.objs[o].vs = "dropped"] ELSE m5b
+        m5c == Flag(m5b, known /\ OwnCbOpen(m, o), "C01", "object " \o ToString(o) \o " is destroyed while one of its own callbacks is still running")
+        m6 == IF known /\ ob.vs \in {"live", "moved", "pending"} THEN [m5c EXCEPT !.objs[o].vs = "dropped"] ELSE m5c
     IN Push(BumpNcb(m6), CbFrame(k, o))
   ELSE IF k = "action" THEN
     LET c == o
@@ -534,7 +538,8 @@ OnDealloc(m, e) ==
     LET unwrapping == Depth(m) > 0 /\ Top(m).k = "op" /\ Top(m).op = "unwrap" /\ Top(m).o = o
         m2 == Flag(m1, o \in Reach(m) /\ ob.vs = "live", "C01", "allocation of reachable object " \o ToString(o) \o " released")
         m3 == Flag(m2, ~(ob.vs \in {"dropped", "uninit"} \/ ob.ismap \/ (ob.vs = "live" /\ unwrapping)), IF ob.cyc /\ ob.vs = "live" THEN "C14" ELSE "C03", "allocation of object " \o ToString(o) \o " released while its value is " \o ob.vs)
-        m4 == Flag(m3, ob.mlive /\ WCntObs(m, o) = 0 /\ ~m.faulted, "C09", "side record of object " \o ToString(o) \o " not released with the allocation although no Weak exists")
+        m4a == Flag(m3, ob.mlive /\ WCntObs(m, o) = 0 /\ ~m.faulted, "C09", "side record of object " \o ToString(o) \o " not released with the allocation although no Weak exists")
+        m4 == Flag(m4a, OwnCbOpen(m, o), "C01", "allocation of object " \o ToString(o) \o " released while one of its own callbacks is still running")
     IN [m4 EXCEPT !.objs[o].bs = "freed", !.objs[o].vs = IF ob.ismap THEN "dropped" ELSE @, !.bytes = @ - b.size, !.blocks = rest]
   ELSE
     LET m2 == Flag(m1, WCntObs(m, o) > 0 /\ ~(ob.winfl = 1 /\ WCnt(m, o) = 0 /\ ob.bs = "freed"), "C09", "side record of object " \o ToString(o) \o " released while Weak pointers exist")
